@@ -226,7 +226,7 @@ func runDescribe(e *Env) {
 			continue
 		}
 		switch rec.Kind {
-		case "read":
+		case "arrive": // what the socket received (whether or not the receiver got round to reading it)
 			reads = append(reads, rd{Stamp{rec.T, rec.Seq}, rec.Data})
 		case "send":
 			libReqs = append(libReqs, parseFrame(rec.Data))
